@@ -251,10 +251,10 @@ impl Property for C11 {
         "C11"
     }
     fn rule(&self) -> String {
-        "scenario scripts: 1..4 appends to $s from generated peers combined by seq/par, `(canon D $s #can)` at a designated peer D, two probe calls `[#can]` on generated peers in parallel with 0..2 late appends, a fold over $s and a local canon at another peer; 4-5 peers, random schedules with duplicates and late results. Oracles: (a) over all data of the history the canon results attributed to D carry one single content id; (b) every probe invocation receives the same array; (c) that array equals the stream values D's data held before the canon state in the run that first produced it, in (generation, trace position) order. Non-trivial = a value was appended to the stream after the canon was fixed (some later data holds more stream values than the canon), distinct by (script, schedule) hash".into()
+        "scenario scripts: 1..4 appends to $s from generated peers (call output, or call into a scalar followed by ap) combined by seq/par, `(canon D $s #can)` at a designated peer D, two probe calls `[#can]` on generated peers in parallel with 0..2 late appends, a fold over $s and a local canon at another peer; 4-5 peers, random schedules with duplicates and late results. Oracles: (a) over all data of the history the canon results attributed to D carry one single content id; (b) every probe invocation receives the same array; (c) that array equals the stream values D's data held before the canon state in the run that first produced it, in (generation, trace position) order. Non-trivial = a value was appended to the stream after the canon was fixed (some later data holds more stream values than the canon), distinct by (script, schedule) hash".into()
     }
     fn assumptions(&self) -> Vec<String> {
-        vec!["stream values are produced by calls only (ap-produced values carry no content in the trace)".into()]
+        vec!["stream values are produced by calls, or by `(seq (call P .. v) (ap v $s))`: an ap state carries no content, but the two states of that pair are adjacent in every trace, so the appended value is read from the scalar result right before the ap state".into()]
     }
     fn bounds(&self, _tier: Tier) -> Value {
         json!({"early_appends": "1..4", "late_appends": "0..2", "peers": "4..5", "schedule_len": 40})
@@ -371,7 +371,7 @@ impl Property for C13 {
         "C13"
     }
     fn rule(&self) -> String {
-        "the same scenario scripts: appends from several peers, `(fold $s i (par|seq BODY (next i)))` at peer F (in a third of the cases preceded by another par-next fold over $s at F), then a local `(canon F $s #loc)` with a probe. BODY is `(call F (\"visit\" \"v\") [i])`, in two thirds of the cases followed by a recursive append `(xor (match i.$.n 0 (call T (\"app\" \"rec\") [i] $s)) (null))` whose result depends on its trigger and recurses 2-3 levels deep; T is F itself (mode 1) or the peer named by the element, `i.$.p` (mode 2: recursion levels produced on several peers and merged back). Oracles: (1) F never visits a value twice (no two visit requests with the same argument); (2) with the par-next shape, once everything is delivered the visited values are exactly the stream values in F's final data (including late and recursive appends), each once; (3) the local canon holds exactly the stream values F's data held before the canon entry in the run that produced it (as multisets: nothing duplicated or lost by merging), and the probe receives them. Non-trivial = F received the stream values in >= 2 deliveries and visited >= 3 values; distinct by (script, schedule) hash".into()
+        "the same scenario scripts: appends from several peers (call output or call + ap), `(fold $s i (par|seq BODY (next i)))` at peer F (in a third of the cases preceded by another par-next fold over $s at F), then a local `(canon F $s #loc)` with a probe. BODY is `(call F (\"visit\" \"v\") [i])`, in two thirds of the cases followed by a recursive append `(xor (match i.$.n 0 (call T (\"app\" \"rec\") [i] $s)) (null))` whose result depends on its trigger and recurses 2-3 levels deep; T is F itself (mode 1) or the peer named by the element, `i.$.p` (mode 2: recursion levels produced on several peers and merged back). Oracles: (1) F never visits a value twice (no two visit requests with the same argument); (2) with the par-next shape, once everything is delivered the visited values are exactly the stream values in F's final data (including late and recursive appends), each once; (3) the local canon holds exactly the stream values F's data held before the canon entry in the run that produced it (as multisets: nothing duplicated or lost by merging), and the probe receives them. Non-trivial = F received the stream values in >= 2 deliveries and visited >= 3 values; distinct by (script, schedule) hash".into()
     }
     fn assumptions(&self) -> Vec<String> {
         vec!["values are unique by construction (one service function per append; the recursive append is a hash of its trigger and level)".into(), "the seq-next shape may legitimately stop at a pending visit: completeness (2) is asserted for the par-next shape only".into()]
